@@ -30,7 +30,7 @@ Proof.
   destruct (Rcompare_spec (ext prec emax k) 1) as [|E1|]; try discriminate.
   pose proof (M_gt_1 prec emax Hp Hpe).
   assert (F : is_finite k = true).
-  { destruct k as [|[|]| |]; try reflexivity; try discriminate; unfold GuardLemmas.ext in E1; lra. }
+  { destruct k as [|[|]| |]; try reflexivity; try discriminate; unfold GuardSpec.ext in E1; lra. }
   rewrite ext_finite in E1 by trivial.
   apply B2R_inj.
   - destruct k; try discriminate; simpl in E1; try lra. reflexivity.
